@@ -276,9 +276,8 @@ func (wl *WaitList) get(address types.Address) *Model {
 
 	m.address = address
 	m.markDirty = wl.markDirty
-	wl.setToMap(address, m)
 
-	return m
+	return wl.setToMapIfAbsent(address, m)
 }
 
 func (wl *WaitList) getFromMap(address types.Address) *Model {
@@ -293,6 +292,20 @@ func (wl *WaitList) setToMap(address types.Address, model *Model) {
 	defer wl.lock.Unlock()
 
 	wl.list[address] = model
+}
+
+// setToMapIfAbsent caches a model that was just loaded from the tree and returns the cached one: a
+// concurrent read-only query must not replace the model block execution is already working on.
+func (wl *WaitList) setToMapIfAbsent(address types.Address, model *Model) *Model {
+	wl.lock.Lock()
+	defer wl.lock.Unlock()
+
+	if cached := wl.list[address]; cached != nil {
+		return cached
+	}
+
+	wl.list[address] = model
+	return model
 }
 
 func (wl *WaitList) markDirty(address types.Address) {
